@@ -419,3 +419,48 @@ PLANS["C18"] = dict(
         validate=dict(module="Trace_PluginSigner", cfg=trace_cfg()),
     )],
 )
+
+# ------------------------------------------------------------------ C16
+PLANS["C16"] = dict(
+    level_text="Path resolution is modelled lexically in TLA+ (component sequences, Clean/Join as in path/filepath, the notation- prefix gluing "
+               "onto the first component); TLC checks the containment lemma for every name of the traversal grammar and computes, per name, "
+               "where an unvalidated manager would look for the directory and the executable; every (root depth, name, operation) is replayed "
+               "against the real CLIManager (lookup + metadata, uninstall, install from file and from directory) and through end-to-end "
+               "verifier.Verify of a signature carrying the name, inside a sandbox with sentinel executables planted at exactly those "
+               "locations and precious files at every level; everything executed (marker file) or changed (snapshots) is validated by TLC "
+               "against Allowed(root, name, location), and List() is compared with the real sub-directories (symlink and file decoys).",
+    level_note="Trusted: TLC, /bin/sh for the sentinel plugins, the file-system snapshot. Names that are not a single component but still "
+               "resolve to root/<c> (e.g. './p') may be accepted or refused; containment is required either way.",
+    rule="cases = (root, name, operation) of MC_PluginManager_C16; non-trivial = name is not a single component",
+    exhaustive=True,
+    phases=[dict(
+        name="names",
+        gen=dict(module="MC_PluginManager_C16",
+                 cfg=lambda tier, seed: mc_cfg(["Inv_Lemma", "Inv_Converse", "Inv_Guard", "Inv_Emit"], consts=["MaxComps = 4" if tier == "thorough" else "MaxComps = 3"]),
+                 select=slicer(4000)),
+        drive=dict(driver="pluginmgr-names"),
+        validate=dict(module="Trace_PluginManager", cfg=trace_cfg()),
+    )],
+)
+
+# ------------------------------------------------------------------ C20
+PLANS["C20"] = dict(
+    level_text="Installation is a state machine over the installed plugin (version, file set) with semantic-version precedence (an ASSUME shows "
+               "the order on the alphabet is a strict weak order ignoring build metadata); TLC explores the whole state graph under every source "
+               "(7 versions incl. invalid x metadata ok/invalid/misnamed x file/directory x executable/non-executable/two/no candidate x extra "
+               "files sorting before/after x sub-directory x overwrite) and checks replace <=> absent/overwrite/strictly higher, refusal = no "
+               "change, success = exactly the source's files, and same result from file or directory; EVERY transition of the graph is replayed "
+               "on a real plugin root with /bin/sh plugins, observing result, reported metadata, the plugin directory (names, origins), the "
+               "metadata the installed plugin answers, List/Get and a bystander plugin.",
+    level_note="Trusted: TLC, /bin/sh. Permission-denied situations and a copy failing half-way are not generated (the harness runs as root).",
+    rule="cases = all (installed state, operation) transitions of MC_PluginManager_C20; non-trivial = a plugin is already installed",
+    exhaustive=True,
+    phases=[dict(
+        name="transitions",
+        gen=dict(module="MC_PluginManager_C20",
+                 cfg=lambda tier, seed: mc_cfg(["Inv_C20", "Inv_SameFromFileOrDir", "Inv_Emit", "Inv_EmitU"], consts=['Variant = "full"' if tier == "thorough" else 'Variant = "small"']),
+                 select=slicer(4000)),
+        drive=dict(driver="plugin-install"),
+        validate=dict(module="Trace_PluginInstall", cfg=trace_cfg()),
+    )],
+)
